@@ -229,6 +229,21 @@ func tornRound(w *W, idx int) {
 		fns = append(fns, func() {
 			r := rngFor(w.Seed, 12, idx, ri)
 			for atomic.LoadInt32(&writersLeft) > 0 {
+				if ri == readers-1 {
+					// ONE reader nests point reads on rows of other blocks inside its iteration callbacks. (Two such
+					// readers in opposite directions can deadlock behind pending writers - read latches are not
+					// re-entrant across goroutines' wait chains - which is why nested latching is outside the model,
+					// DESIGN.md 3.3; a single one cannot: nobody else waits while holding a latch.)
+					c.Query(func(txn *column.Txn) error {
+						return txn.With("odd").Range(func(i uint32) {
+							other := targets[r.Intn(len(targets))]
+							if other>>14 != i>>14 {
+								txn.QueryAt(other, func(row column.Row) error { check(row, "QueryAt nested in a Range callback of another block"); return nil })
+							}
+						})
+					})
+					continue
+				}
 				switch ri % 3 {
 				case 0:
 					for j := 0; j < 50; j++ {
